@@ -82,5 +82,6 @@ def main (args : List String) : IO UInt32 := do
   | ["frame"] => Vsgm.FrameCli.frameMain stdin stdout; stdout.flush; return 0
   | ["retok"] => Lex.retokMain stdin stdout; return 0
   | ["ct"] => Vsgm.CT.ctMain stdin stdout; stdout.flush; return 0
+  | ["c05"] => Vsgm.Classify.classifyMain stdin stdout; stdout.flush; return 0
   | ["wb"] => Vsgm.WB.wbMain stdin stdout; return 0
   | _ => IO.eprintln "usage: driver <mode>"; return 2
